@@ -296,3 +296,25 @@ package mvp6_0
 //@   assigns u.l3.lines
 //@   loop 0: invariant wfMMU(u) && u.l3 == old(u.l3) && len(u.l3.lines) == len(old(u.l3.lines))
 // ---- END generated by gen_l3.py
+
+// ---- control unit dispatch of MVP-6.0 (C04): no forwarding, no renaming: an
+// instruction is pushed to the execute bus only without ANY hazard (RAW, WAW,
+// WAR) on the scoreboard, enters the scoreboard exactly once, a refused one
+// leaves the scoreboard alone; at most one branch per cycle and never after
+// another instruction of the same cycle; `ret` only onto an empty bus.
+//@ func (*controlUnit).pushRunner
+//@   requires u != nil && u.outBus != nil && runner != nil && runner.Runner != nil && risc.wfBoard(ctx) && risc.smallBoard(ctx) && cycle < 9223372036854775807
+//@   ensures len(u.outBus.buffer) == len(old(u.outBus.buffer)) + 1 && u.outBus.buffer[len(old(u.outBus.buffer))].t == runner
+//@   ensures forall r risc.RegisterType :: r != risc.Zero ==> ctx.PendingReadRegisters[r] == old(ctx.PendingReadRegisters[r]) + risc.readCount(runner.Runner, r) && ctx.PendingWriteRegisters[r] == old(ctx.PendingWriteRegisters[r]) + risc.writeCount(runner.Runner, r)
+//@   ensures risc.wfBoard(ctx)
+//@   assigns u.outBus.buffer, u.outBus.buffer[*], ctx.PendingReadRegisters[*], ctx.PendingWriteRegisters[*]
+
+//@ func (*controlUnit).handleRunner
+//@   requires u != nil && u.outBus != nil && runner.Runner != nil && risc.wfBoard(ctx) && risc.smallBoard(ctx) && cycle < 9223372036854775807
+//@   nooverflow u.blockedBranch, u.blockedDataHazard
+//@   ensures push ==> (forall r risc.RegisterType :: !old(risc.isRAW(ctx, runner.Runner, r)) && !old(risc.isWAW(ctx, runner.Runner, r)) && !old(risc.isWAR(ctx, runner.Runner, r)))
+//@   ensures push && risc.insType(runner.Runner) == risc.Ret ==> old(len(u.outBus.queue)) == 0 && old(len(u.outBus.buffer)) == 0
+//@   ensures push && risc.insType(runner.Runner).IsBranch() ==> pushed <= 0
+//@   ensures push ==> !stop
+//@   ensures push ==> (forall r risc.RegisterType :: r != risc.Zero ==> ctx.PendingReadRegisters[r] == old(ctx.PendingReadRegisters[r]) + risc.readCount(runner.Runner, r) && ctx.PendingWriteRegisters[r] == old(ctx.PendingWriteRegisters[r]) + risc.writeCount(runner.Runner, r))
+//@   ensures !push ==> (forall r risc.RegisterType :: ctx.PendingReadRegisters[r] == old(ctx.PendingReadRegisters[r]) && ctx.PendingWriteRegisters[r] == old(ctx.PendingWriteRegisters[r])) && len(u.outBus.buffer) == len(old(u.outBus.buffer))
